@@ -11,6 +11,6 @@ ASSUMPTIONS = ["PARTIAL: `results unchanged` is proved per request (stop/continu
 
 def run(seed, tier, replay=None):
     result = {"evaluations": 0, "distinct_nontrivial": 0, "rule": "", "samples": [], "traces": 0, "dist": {}, "violations": [], "broken": []}
-    return mix.merge(result, tim.run_family("stop", seed, tier, 11, 66, jobs=6))
+    return mix.merge(result, tim.run_family("stop", seed, tier, 18, 90, jobs=8))
 
 KNOWN_MATCHERS = {}
